@@ -16,6 +16,10 @@ CLAIMS = {
    text='Static non-interference argument discharged over every library TU: no static-storage object is ever written (whole-program may-point-to over all stores incl. mem*/intrinsic/asm destinations), no hidden-state libc call, no pseudostack; so distinct objects share read-only memory only.',
    note=TRUST + 'Points-to is unsound only for pointers laundered through integers/unions/varargs; libc mem*/malloc/libm thread-safe; one thread per object.',
    technique='whole-program may-point-to + store classification over the typed AST (custom libTooling checker)'),
+ 'C07': dict(category='other',
+   text='Partial: a rejected cat leaves observable contents unchanged (commit-after-validate, slot index < 48 from the 120 ms check); every output store of out_range_impl is reached only after a tot_size-vs-maxlen check returning OPUS_BUFFER_TOO_SMALL since the last growth of tot_size (typestate product over the CFG with interval pruning); pad/unpad guards and copy-before-cat; no repacketizer/parser/extension error is dropped. Byte-for-byte frame preservation, canonical unpad and the 1277*n bound are NOT decided.',
+   note=TRUST + 'One growth of tot_size is a frozen, reasoned exception (anticipated by the dominating padding check).',
+   technique='typestate product of the CFG with a budget-checked automaton, analysed by interval abstract interpretation; never-after / must-pass-through rules; unchecked-error rule'),
  'C10': dict(category='other',
    text='Partial: for all five built-in ambisonics orders demixing x mixing = gain*I (exhaustive over the constant matrices) with consistent headers/sizes and matching order selection; the 8 Vorbis layouts are valid permutation layouts equal to RFC 7845; one self-delimiting predicate at all five multistream sites; (selector, lane, stride) routing pairs in encoder and decoder and the selector bodies; creation guards dominate allocation/layout stores. Bit-exact equality with stand-alone decoding is NOT decided.',
    note=TRUST + 'RFC 7845 family-1 table transcribed into the checker.',
